@@ -38,7 +38,7 @@ PROPS = {
     'C15': _p('proof', explanation='kahn proved against its layering contract (loop invariant over a counting model); converse / flatmap / operation_adjacency proved to compute the dependency relation; layer() proved to satisfy the local form of the property, from which the path form follows by verified lemmas; grouping (layered_operations) bounded'),
     'C16': _p('exploration'),
     'C17': _p('proof', explanation='is_monogamous and degrees proved; is_acyclic proved: true iff no node reaches itself (kahn + node adjacency under contract, cycle lemmas)', dev_profile=True),
-    'C18': _p('proof', explanation='validate iff + error variants and is_monomorphism proved; convexity bounded'),
+    'C18': _p('proof', explanation='validate iff + error variants, is_monomorphism and is_convex_subgraph (two-layer search: loop invariant, soundness and completeness against step-indexed reachability, termination) proved'),
     'C19': _p('exploration'),
     'C20': _p('exploration'),
 }
